@@ -29,6 +29,27 @@ var traversalCorpus = []string{
 	strings.Repeat("d/", 60) + "x", strings.Repeat("../", 40) + "etc/passwd", "sub/", "sub/..", " ../x", "..x", "x..", "a/...",
 }
 
+func init() {
+	// the same spellings with backslashes as separators (a PAR2 set
+	// written on Windows may carry them; on this platform a backslash is
+	// an ordinary file-name character and must stay one)
+	base := append([]string(nil), traversalCorpus...)
+	seen := map[string]bool{}
+	for _, n := range base {
+		seen[n] = true
+	}
+	for _, n := range base {
+		if strings.Contains(n, "/") && len(n) < 100 {
+			b := strings.Replace(n, "/", "\\", -1)
+			if !seen[b] {
+				seen[b] = true
+				traversalCorpus = append(traversalCorpus, b)
+			}
+		}
+	}
+	traversalCorpus = append(traversalCorpus, "sub\\..\\..\\x", "a\\..\\..\\top.txt", "a\\../..\\x", "sub/..\\..\\x", "x\\..\\..\\sibling\\file")
+}
+
 type c15Case struct {
 	Par1  bool
 	Name  int
@@ -179,7 +200,11 @@ func containment(r *Run) {
 				for j := 0; j < nc; j++ {
 					parts = append(parts, comps[t.Draw(len(comps), "comp")])
 				}
-				n := strings.Join(parts, "/")
+				sep := "/"
+				if t.Bool(1, 4, "backslash-sep") {
+					sep = "\\"
+				}
+				n := strings.Join(parts, sep)
 				if t.Bool(1, 4, "abs") {
 					n = "/" + n
 				}
